@@ -327,7 +327,7 @@ def rule_stable_softmax(repo, rep):
            'exp(-d) / sum underflows to 0/0 for large-scale features, and '
            'fit then fails or returns non-finite components')
   for key in ('nca.NCA._loss_grad_lbfgs', 'mlkr.MLKR._loss'):
-    f = repo.get_func(key)
+    f = astutil.inline_helpers(repo, repo.get_func(key))
     exps = [c for c in astutil.calls_in(f.node)
             if canon(repo.dotted(f.module, c.func) or '') == canon(
                 'numpy.exp')]
@@ -346,9 +346,24 @@ def rule_stable_softmax(repo, rep):
         rep.unknown(R, key, site(f, e), 'soft-max form %s not in the table'
                     % arg)
       else:
-        rep.refuted(R, key, site(f, e), 'soft-max computed as exp(%s) '
-                    'without the logsumexp normaliser: it underflows for '
-                    'large-scale features' % arg)
+        # exp(-d) of the raw distances: refuted only when nothing in the
+        # function shifts them (no row minimum / maximum subtracted, no
+        # logsumexp / softmax anywhere); other forms are not decided here
+        src = ast.unparse(f.node)
+        shifted = any(x in src for x in ('logsumexp', 'softmax', '.min(',
+                                         '.max(', 'np.min(', 'np.max(',
+                                         'np.amin(', 'np.amax('))
+        raw = e.args and isinstance(e.args[0], ast.UnaryOp) and \
+            isinstance(e.args[0].op, ast.USub) and \
+            isinstance(e.args[0].operand, ast.Name)
+        if raw and not shifted:
+          rep.refuted(R, key, site(f, e), 'soft-max computed as exp(%s) '
+                      'without the logsumexp normaliser: it underflows for '
+                      'large-scale features' % arg)
+        else:
+          rep.unknown(R, key, site(f, e), 'exponential %s: not the '
+                      'documented soft-max form, stability not decided'
+                      % arg)
 
 
 def rule_self_exclusion(repo, rep):
@@ -382,7 +397,7 @@ def rule_lmnn_objective(repo, rep):
            '1 - reg: G = reg dfG + (1 - reg) df mapped through L, objective '
            '= (1 - reg) total_active + <L G, L>, and the returned gradient is '
            '2 L G (derivative of tr(L G L^T) for the symmetric G)')
-  f0 = repo.get_func('lmnn.LMNN._loss_grad')
+  f0 = astutil.inline_helpers(repo, repo.get_func('lmnn.LMNN._loss_grad'))
   rep.analysed(f0)
   # roles from the returned triple (gradient built from G, objective,
   # number of active constraints); df is the other matrix in G's definition
@@ -476,7 +491,7 @@ def rule_lmnn_impostor_enumeration(repo, rep):
            'and compares the pair distance with the margin radius of the out '
            'point along the rows and of the in point along the columns; the '
            'returned index pairs are (in_inds[column], out_inds[row])')
-  f0 = repo.get_func('lmnn.LMNN._find_impostors')
+  f0 = astutil.inline_helpers(repo, repo.get_func('lmnn.LMNN._find_impostors'))
   rep.analysed(f0)
   roles = {}
   for n_ in ast.walk(f0.node):
